@@ -10,8 +10,11 @@ args = sys.argv[1:]
 props = [f'C{i:02d}' for i in range(1, 17)]
 if '--props' in args:
     i = args.index('--props'); props = args[i + 1].split(','); del args[i:i + 2]
+srcdir = None
+if '--src' in args:
+    i = args.index('--src'); srcdir = args[i + 1]; del args[i:i + 2]
 pid, slug, democmd = args[0], args[1], args[2]
-src = f'/tmp/seed_{pid}'
+src = srcdir or f'/tmp/seed_{pid}'
 out = f'/verif/seeded/{pid}-{slug}'
 env = dict(os.environ, CARGO_NET_OFFLINE='true', CARGO_TARGET_DIR=f'{src}/target')
 def sh(cmd, cwd, env=env, timeout=3600):
